@@ -71,8 +71,13 @@ func runeSub(t *rapid.T, s string) string {
 	return string(rs[a:b])
 }
 
-func TestC18(t *testing.T) {
-	rapid.Check(t, func(t *rapid.T) {
+func TestC18(t *testing.T) { rapid.Check(t, propC18) }
+
+// FuzzC18 drives the same property with coverage-guided bytes (thorough tier only).
+func FuzzC18(f *testing.F) { f.Fuzz(rapid.MakeFuzz(propC18)) }
+
+func propC18(t *rapid.T) {
+	{
 		n := rapid.IntRange(1, 30).Draw(t, "rows")
 		cells := make([]*string, n)
 		nonASCII, growth := false, false
@@ -194,7 +199,7 @@ func TestC18(t *testing.T) {
 			classes = append(classes, "partial-match")
 		}
 		evC18.Case((comp == "ilike" && nonASCII) || growth, desc, classes...)
-	})
+	}
 }
 
 func isASCII(s string) bool {
